@@ -23,6 +23,8 @@ type Op struct {
 	SetKind string    `json:"set_kind,omitempty"` // valid | invalid | dry-run | device-error
 	Step    vlib.Step `json:"step,omitempty"`
 	Short   bool      `json:"short,omitempty"` // transaction timeout: short (shortT) or one hour
+	// the device refuses the rollback when this (short) transaction expires
+	RollbackFails bool `json:"rollback_fails,omitempty"`
 	// confirm / cancel
 	ID string `json:"id,omitempty"` // open | stale | unknown
 }
@@ -58,6 +60,7 @@ func gen(t *rapid.T) *Case {
 			}
 			op.Step = vlib.Step{Intents: []vlib.IntentOp{io}}
 			op.Short = rapid.IntRange(0, 2).Draw(t, "short-timeout") == 0
+			op.RollbackFails = op.Short && rapid.IntRange(0, 3).Draw(t, "rollback-fails") == 0
 		case "confirm", "cancel":
 			op.ID = rapid.SampledFrom([]string{"open", "open", "stale", "unknown"}).Draw(t, "id")
 		}
@@ -69,7 +72,7 @@ func gen(t *rapid.T) *Case {
 var prop = vlib.Prop[*Case]{
 	ID: "C06",
 	Rule: "case = sequence of 2..9 operations over {TransactionSet(valid | validation failure | dry run | device error; transaction timeout 300 ms or 1 h), TransactionConfirm / TransactionCancel(id of the open transaction | id of an earlier transaction | never used id), wait-for-timeout} on one real datastore; a Set issued while a transaction is open gets a 300 ms context; " +
-		"oracle = reference model of the slot (none | open(id)): Set while open is refused and leaves the open transaction and the device untouched; Confirm / Cancel with another id fail, the same transaction stays open with its timer armed (observer hook, sampled over 30 ms) and the device sees no traffic; a short transaction left alone is rolled back exactly once (one device call) and the slot is free 700 ms after its timeout; Confirm of the open id frees the slot without device traffic and no rollback follows; Cancel of the open id frees it with exactly one device call; after every other Set outcome (validation failure, dry run, device error) the slot is free no later than 700 ms after the transaction timeout without any client action and the next Set is accepted; answers inside the uncertainty window of a short timeout (120 ms .. timeout + 700 ms) are not judged; " +
+		"oracle = reference model of the slot (none | open(id)): Set while open is refused and leaves the open transaction and the device untouched; Confirm / Cancel with another id fail, the same transaction stays open with its timer armed (observer hook, sampled over 30 ms) and the device sees no traffic; a short transaction left alone is rolled back exactly once (one device call, which the device is made to refuse for a quarter of them) and the slot is free 700 ms after its timeout; Confirm of the open id frees the slot without device traffic and no rollback follows; Cancel of the open id frees it with exactly one device call; after every other Set outcome (validation failure, dry run, device error) the slot is free no later than 700 ms after the transaction timeout without any client action and the next Set is accepted; answers inside the uncertainty window of a short timeout (120 ms .. timeout + 700 ms) are not judged; " +
 		"non-trivial = at least one confirm / cancel with a foreign id on an open transaction, a Set on an occupied slot, a timeout expiry, or a non-success Set outcome followed by another Set; distinct = distinct cases",
 	Gen:  gen,
 	Exec: Exec,
@@ -78,6 +81,7 @@ var prop = vlib.Prop[*Case]{
 type open struct {
 	id       string
 	short    bool
+	failRB   bool
 	t0       time.Time
 	resolved []vlib.ResolvedIntent
 	callsAt  int // device calls right after the apply
@@ -102,9 +106,15 @@ func (r *run) settle(force bool) *vlib.Failure {
 	if !force && time.Since(r.cur.t0) < safeOpen {
 		return nil
 	}
+	if r.cur.failRB && time.Since(r.cur.t0) < safeOpen {
+		// the device will refuse the rollback of the expiring transaction
+		r.h.Dev.FailAt = r.h.Dev.Calls() + 1
+		r.lab["device-refuses-expiry-rollback"] = true
+	}
 	if d := safeGone - time.Since(r.cur.t0); d > 0 {
 		time.Sleep(d)
 	}
+	r.h.Dev.FailAt = 0
 	r.lab["timeout-expiry"] = true
 	r.nt = true
 	id, isOpen, _ := r.peek()
@@ -350,7 +360,7 @@ func Exec(c *Case) (nontrivial bool, labels []string, fail *vlib.Failure) {
 					r.lab["device-error-not-reached-empty-change"] = true
 				}
 				pid, isOpen, armed := r.peek()
-				r.cur = &open{id: id, short: op.Short, t0: time.Now(), resolved: res, callsAt: h.Dev.Calls()}
+				r.cur = &open{id: id, short: op.Short, failRB: op.RollbackFails, t0: time.Now(), resolved: res, callsAt: h.Dev.Calls()}
 				if r.certainlyOpen() && (!isOpen || pid != id || !armed) {
 					return ret(vlib.Failf("C06:applied-transaction-not-open", "%s: applied, but the slot shows (%q, open=%v, timer armed=%v)", where, pid, isOpen, armed))
 				}
